@@ -535,6 +535,18 @@ func eScenario(r *rand.Rand) ([]database.Command, string, eOpts) {
 			o.AllPlatforms = true
 			o.Limit = 10
 			o.Threshold = []int{5, 10, 15, 25, 40, -100, -101, -150}[r.Intn(8)]
+			o.PipelineBoost = []string{"", "2", "1.5", "3"}[(bad+good+k)%4] // a pipeline boost in force while the fallback answers
+			if o.PipelineBoost != "" {
+				// entries of middling length (match quality between the two clamps), pipelines and plain ones alternating, each longer - a worse match - than the one before
+				pad := "and some more words about it "
+				for i := 0; i < 5; i++ {
+					cmds = append(cmds, database.Command{Command: "zq " + stem + " run", Description: "does it " + strings.Repeat(pad, i)[:i*9], Pipeline: i%2 == 1})
+				}
+				o.Threshold = []int{0, -100, -150}[k%3]
+				if len(stem) >= 4 { // a short fragment: three letters score between -100 and 0 on texts of this length
+					q = string([]byte{stem[0], stem[2], stem[3]})
+				}
+			}
 		case 0:
 			o.Platforms, o.NoCross = intsList([]string{"linux"}), true
 		case 1:
